@@ -38,6 +38,9 @@ open Irismod.GoSem Irismod.Gen.PureKeys Irismod.Props.TieKeys
 #print axioms htlc_expired_height_separated
 #print axioms service_expired_batch_height_separated
 #print axioms service_new_batch_height_separated
+#print axioms random_queue_in_subspace_iff
+#print axioms farm_active_in_subspace_iff
+#print axioms htlc_expired_in_subspace_iff
 #print axioms random_tables_disjoint
 #print axioms htlc_tables_disjoint
 #print axioms farm_tables_disjoint
